@@ -59,7 +59,10 @@ C = {
          "groups are acyclic trees of Spec leaves; a class is never both Spec and dict; frozen-heap value mode"),
  "C08": ("the positional-binding loop of _start_flow (block contract): with P = the number of leading positional arguments `$0..$P-1` present, the context "
          "variable of the i-th declared parameter IS the value of `$i` for every i < P - any value, None / False / 0 / containers included - every "
-         "other context variable (named arguments, defaults) is untouched, and only ColangRuntimeError can be raised; "
+         "other context variable (named arguments, defaults) is untouched, and only ColangRuntimeError can be raised; the first parameter loop of "
+         "create_flow_instance binds a named argument to exactly the caller's value and a parameter without argument and default to None; the "
+         "`return` branch of slide stores exactly the evaluated value (None for a bare return) under `_return_value`, touches no other variable "
+         "and ends the flow; "
          "FlowState.finished_event / _create_out_event: the FlowFinished event carries return_value == the instance's `_return_value` context entry whenever "
          "that entry exists, for every value incl. None/False/0/empty containers (what `$x = await flow` assigns)", "parameter binding / defaults / return values / private locals through the real interpreter on enumerated signatures x call forms x value types, "
                "concurrent instances, mutable defaults", "dataclass constructors modelled from the real field lists; attribute reads on objects assumed present"),
